@@ -165,6 +165,22 @@ def shard_prefixed(spec):
     return acc
 
 
+CORE6 = [T.A, T.B, T.EQ, T.ONE, T.SEMI, T.QS]
+BARE_PREFIXES = [[T.A, T.EQ, T.B], [T.B, T.EQ, T.A, T.A, T.EQ, T.QS]]
+
+
+def shard_after_bare_word(spec):
+    """after a statement whose value is a bare word (which could also be a name): every sequence of
+    length <= 5 over a six-token core - the repair code of the permissive parser looks back at it"""
+    pi, first = spec
+    acc = Acc()
+    for n in range(0, 5):
+        for tup in itertools.product(CORE6, repeat=n):
+            judge(acc, BARE_PREFIXES[pi] + [first] + list(tup), {"kind": "sequence"})
+    acc.sample({"prefix": T.render(BARE_PREFIXES[pi]), "then": first[1]}, cap=1)
+    return acc
+
+
 def shard_damage(spec):
     di, depth, lo, hi = spec
     base = docs()[di]
@@ -239,6 +255,7 @@ def run(ctx):
     specs += [(T.ALPHABET11, k11, [a, b]) for a in T.ALPHABET11 for b in T.ALPHABET11]
     ctx.pmap(shard_seq, specs, into=acc)
     ctx.pmap(shard_prefixed, [(pi, t) for pi in range(len(PREFIXES)) for t in T.ALPHABET23], into=acc)
+    ctx.pmap(shard_after_bare_word, [(pi, t) for pi in range(len(BARE_PREFIXES)) for t in CORE6], into=acc)
     dspecs = []
     for di, base in enumerate(docs()):
         nd = len(T.damage(base, A18))
@@ -254,7 +271,7 @@ def run(ctx):
         "states": len({(a, b) for a, b, _ in edges}), "transitions": len(edges),
         "traces_validated_against_impl": acc.traces,
         "rule": "all token sequences of length <= %d over the 23-token alphabet (quick: the longest length over 21 of them) (18 well-formed tokens + an unterminated quoted string, one ending in the other quote character, an unterminated units expression, an unterminated comment + BEGIN_GROUP, which is a plain name under the ISIS grammar) and of length %d over a 12-token "
-                "core, every sequence of length <= 3 after each of 3 prefixes (header comment + complete statement: non-initial parser states; spaced and compact), plus %d reference documents x all single%s token damages (delete, duplicate, swap, "
+                "core, every sequence of length <= 3 after each of 3 prefixes (header comment + complete statement: non-initial parser states; spaced and compact), every sequence of length <= 5 over a 6-token core after a statement whose value is a bare word, plus %d reference documents x all single%s token damages (delete, duplicate, swap, "
                 "replace by any alphabet token, truncate); each rendered with single spaces (lexically damaged ones also one token per line with a final line end; damaged documents also without optional white space) and run on 5 loaders; "
                 "states = distinct reference verdicts (class, diagnosis), transitions = (verdict, loader) pairs "
                 "exercised, traces = sequences replayed on the implementation; non-trivial = the reference "
@@ -266,7 +283,7 @@ def run(ctx):
     }
     return {"coverage": cov, "violations": acc.violations, "violations_total": acc.vio_total,
             "assumptions": ["the reference grammar R2 (mc/lib/refgrammar.py) is trusted; constructs neither "
-                            "specification settles (empty block, empty ODL sequence, ODL units after a non-number, "
+                            "specification settles (empty block, empty ODL sequence, "
                             "a set nested in an ODL set, stray ';') are UNSPECIFIED and never alarm",
                             "single-space layout (layout is C04's business)",
                             "ISIS is OmniParser+ISISGrammar as pvl_validate defines it and is granted the same "
